@@ -593,6 +593,17 @@ _axiom("A1_fresh", [_i, _j], z3.Implies(z3.And(_i != _j, z3.Length(draw(_i)) >= 
        note="A1: two different draws of at least 16 random bytes differ (fails with probability 2^-128 per pair)")
 
 
+def _paths(fn):
+    def h(E, a, kw, fr, node):
+        from . import paths
+        return getattr(paths, fn)(E, a, kw, fr, node)
+    return h
+
+
+for _n, _f in (("pathlib.Path", "make_path"), ("pathlib.Path.home", "home"), ("os.replace", "os_replace")):
+    external(_n, "D2: ghost file system with directories (pyvc/paths.py)")(_paths(_f))
+
+
 @external("os.urandom", "A1: the next value of the random tape, of the requested length (ghost position rng_n advances by one)")
 def _urandom(E, a, kw, fr, node):
     n = a[0]
